@@ -259,6 +259,9 @@ def _exec_prog(ctx, spec):
         cls = ('complex' if t.startswith('complex') else 'float16' if t == 'float16' else 'real') + (':rank>=3' if len(shape) >= 3 else '')
         tag = f'{lang}:{cls}' + (':empty' if empty else '')
         before = snapshot(apath)
+        if lang == 'darr' and "'path_to_data_dir'" not in code:
+            out.cls('darr-placeholder-not-located')
+            return out
         if lang in ('numpy', 'numpymemmap', 'python', 'darr'):
             src = code.replace("'path_to_data_dir'", repr(apath)) if lang == 'darr' else code
             try:
